@@ -34,6 +34,30 @@ Template directives (see DESIGN.md 3.2/3.3):
   @*/
   The statements of the range are copied verbatim (then treated exactly like a /*@fn body); everything of NAME
   before `from` and from `to` on is NOT part of the verified text.  Either anchor missing / ambiguous = LostAnchor.
+  Further keys of /*@fnrange (unit LOOP):
+  in: `text that ends with {`      (repeatable, applied in order) BEFORE the range is cut, descend into the block opened by the
+                                   `{` that ends the given text: the text must occur exactly once (white space ignored, code only)
+                                   in the current block - the fn body at first, then the block of the previous `in:`.  The
+                                   range is then a range of the top-level statements of THAT block (a closure body, a loop
+                                   body, ..).  Everything outside the block is NOT verified; per step the report records the
+                                   enclosing statement and the number of statements before / after it (`range.descents`).
+  from: <start-of-block>           the range starts with the first statement of the block
+  to: <end-of-block>               the range extends to the last statement of the block
+  expect_before: N / expect_after: N    shape guards: the block has exactly N statements before `from` / from `to` on
+                                   (e.g. `expect_before: 0` = the range starts the block; anything else = LostAnchor)
+
+  check [label] <where>:           in /*@fn and /*@fnrange: like `hint <where>:`, but the inserted `assert(..)` lines are an
+      assert(expr);                obligation of their own, NAME.<fn>.check.<label> (a failing assert is reported under this
+                                   name instead of NAME.<fn>.body; Verus assumes the asserted fact afterwards, so `.body`
+                                   is the no-panic obligation of the rest).  For a panic condition that is a finding of its own.
+  check [label] at `text`:         (no lines) nothing is inserted: the errors Verus reports on the LINE of `text` (failed
+                                   preconditions of the calls made there) are the obligation NAME.<fn>.check.<label>
+
+  /*@stub ../units/U.vrs :: fn_name @*/   the contract of the `/*@fn .. :: fn_name` directive of ANOTHER unit's template, emitted
+                                   as a callee-side contract stub: signature built from /repo exactly as unit U builds it (its
+                                   rules / sigmap), U's `requires:` / `ensures:` text verbatim, body `unimplemented!()`, marked
+                                   `// PROVED-IN: U.fn_name` + `#[verifier::external_body]`.  No obligation here: the real body
+                                   is proved against the same text by unit U.
 
   //@usespec FILE :: name1 name2 ..   (FILE relative to vx/) copies the named `spec fn` / `type` / `struct` items, with
   their attributes, verbatim from another template or prelude file (`*` = every such item of the file): the vocabulary
@@ -389,6 +413,42 @@ def stmt_starts(body):
     return out
 
 
+END_OF_BLOCK = '<end-of-block>'
+START_OF_BLOCK = '<start-of-block>'
+
+
+def descend_block(body, anchor, what):
+    """`in:` step of /*@fnrange.  `body` is the text of a block (comments stripped); `anchor` must end with `{` and occur
+    exactly once in the code of `body` (white space ignored).  Returns (text inside the braces of that `{`, record), the
+    record naming what is left out: the top-level statement of `body` that contains the anchor and the number of
+    statements before / after it."""
+    want = _nows(anchor)
+    if not want.endswith('{'):
+        raise SystemExit('template error: fnrange `in:` anchor must end with `{`: ' + anchor)
+    mask = code_mask(body)
+    idx = [k for k, c in enumerate(body) if mask[k] and c not in ' \t\r\n']
+    flat = ''.join(body[k] for k in idx)
+    hits, start = [], 0
+    while True:
+        j = flat.find(want, start)
+        if j < 0:
+            break
+        hits.append(j)
+        start = j + 1
+    if len(hits) != 1:
+        raise LostAnchor('fnrange in: anchor `%s` of %s: %d occurrences in the enclosing block' % (anchor, what, len(hits)))
+    ob = idx[hits[0] + len(want) - 1]
+    cb = match_close(body, ob, mask)
+    starts = stmt_starts(body)
+    owner = max([p for p in starts if p <= idx[hits[0]]], default=None)
+    if owner is None:
+        raise LostAnchor('fnrange in: anchor `%s` of %s is not inside a statement' % (anchor, what))
+    rec = dict(anchor=anchor, enclosing_statement=norm_ws(body[owner:ob + 1])[:200],
+               statements_before=sum(1 for p in starts if p < owner),
+               statements_after=sum(1 for p in starts if p > cb))
+    return body[ob + 1:cb], rec
+
+
 def cut_range(body, first, last, what):
     """The text of the top-level statements of `body` from the one that starts with `first` up to, excluding, the one
     that starts with `last` (both compared without white space).  Returns (text, statements_before, statements_in,
@@ -404,10 +464,17 @@ def cut_range(body, first, last, what):
             raise LostAnchor('fnrange %s anchor `%s` of %s: %d top-level statements start with it' % (which, anchor, what, len(hits)))
         return hits[0]
 
-    a, b = locate(first, 'from'), locate(last, 'to')
+    if first.strip() == START_OF_BLOCK and not starts:
+        raise LostAnchor('fnrange of %s: empty block' % what)
+    a = starts[0] if first.strip() == START_OF_BLOCK else locate(first, 'from')
+    b = len(body) if last.strip() == END_OF_BLOCK else locate(last, 'to')
     if not a < b:
         raise LostAnchor('fnrange anchors of %s are out of order (shape changed)' % what)
     return body[a:b], sum(1 for p in starts if p < a), sum(1 for p in starts if a <= p < b), sum(1 for p in starts if p >= b)
+
+
+CHECK_MARK = '/*@@check:%s*/'
+CHECK_MARK_RX = re.compile(r'\s*/\*@@check:([A-Za-z0-9_.\-]+)\*/')
 
 
 class Emitter:
@@ -418,11 +485,17 @@ class Emitter:
         self.linemap = {}      # 1-based line -> obligation name (clause lines)
         self.fnranges = []     # (line_a, line_b, fn-obligation-prefix)
 
-    def emit(self, text, tag=None):
+    def emit(self, text, tag=None, check_prefix=None):
         for ln in text.split('\n'):
+            mc = CHECK_MARK_RX.search(ln) if check_prefix else None
+            if mc:
+                # a line of a `check [label] ..:` section: an obligation of its own
+                ln = ln[:mc.start()] + ln[mc.end():]
             self.lines.append(ln)
             if tag:
                 self.linemap[len(self.lines)] = tag
+            elif mc:
+                self.linemap[len(self.lines)] = '%s.check.%s' % (check_prefix, mc.group(1))
 
     def lineno(self):
         return len(self.lines)
@@ -456,7 +529,8 @@ def parse_fn_directive(text):
         raise SystemExit('template error: bad @fn header: ' + head)
     d = dict(file=allparts[0], impl=' :: '.join(allparts[1:-1]), name=allparts[-1], props=None, rename=None,
              rules=[], sig=None, requires=[], ensures=[], loops={}, hints=[], ret='r', attrs=[], mode=None,
-             decreases=None, nloops=None, sigmap=[], callmap=[], range=False)
+             decreases=None, nloops=None, sigmap=[], callmap=[], range=False, checks=[], expect_before=None, expect_after=None)
+    d['in'] = []
     d['from'] = d['to'] = d['as'] = d['returns'] = None
     sec, buf, arg = None, [], None
 
@@ -493,11 +567,23 @@ def parse_fn_directive(text):
                 decreases=dec)
         elif sec == 'hint':
             d['hints'].append((arg, '\n'.join(buf)))
+        elif sec == 'check':
+            lab, where = arg
+            # every line of a named check carries a marker; Emitter.emit turns it into a line -> obligation entry
+            d['checks'].append(lab)
+            if where.startswith('at '):
+                # `check [label] at `text`:` (no lines): errors Verus reports ON THE LINE of the anchor (a precondition of a
+                # call made there) are this obligation; nothing is inserted but the marker
+                if any(ln.strip() for ln in buf):
+                    raise SystemExit('template error: `check [%s] at ..:` takes no lines' % lab)
+                d['hints'].append((where, CHECK_MARK % lab))
+            else:
+                d['hints'].append((where, '\n'.join(ln + ' ' + CHECK_MARK % lab if ln.strip() else ln for ln in buf)))
         sec, buf, arg = None, [], None
 
     for ln in lines[1:]:
         s = ln.strip()
-        m = re.match(r'(props|rename|rules|sig|ret|attr|mode|decreases|nloops|sigmap|callmap|from|to|as|returns):\s*(.*)$', s) if not ln.startswith((' ', '\t')) else None
+        m = re.match(r'(props|rename|rules|sig|ret|attr|mode|decreases|nloops|sigmap|callmap|from|to|as|returns|in|expect_before|expect_after):\s*(.*)$', s) if not ln.startswith((' ', '\t')) else None
         if m:
             flush()
             k, v = m.group(1), m.group(2).strip()
@@ -514,6 +600,10 @@ def parse_fn_directive(text):
                 d[k].append((a.strip().strip('`'), b.strip().strip('`')))
             elif k in ('from', 'to'):
                 d[k] = v.strip().strip('`')
+            elif k == 'in':
+                d['in'].append(v.strip().strip('`'))
+            elif k in ('expect_before', 'expect_after'):
+                d[k] = int(v)
             else:
                 d[k] = v
             continue
@@ -531,6 +621,11 @@ def parse_fn_directive(text):
         if m:
             flush()
             sec, arg = 'hint', m.group(1).strip()
+            continue
+        m = re.match(r'check\s+\[([A-Za-z0-9_.\-]+)\]\s+(.*):\s*$', s) if not ln.startswith((' ', '\t')) else None
+        if m:
+            flush()
+            sec, arg = 'check', (m.group(1), m.group(2).strip())
             continue
         if sec:
             buf.append(ln)
@@ -565,9 +660,13 @@ def apply_hints(body, hints):
             else:
                 ins.append((ob + 1, '\n' + text + '\n') if m.group(2) == 'start' else (cb, '\n' + text + '\n'))
         else:
-            m = re.match(r'(before|after)\s+`(.*)`(?:\s+#(\d+|\*))?$', where, re.S)
+            m = re.match(r'(before|after|at)\s+`(.*)`(?:\s+#(\d+|\*))?$', where, re.S)
             if not m:
                 raise SystemExit('template error: bad hint anchor: ' + where)
+            if m.group(1) == 'at':
+                idx = nth_occurrence(body, m.group(2), int(m.group(3) or 1) if m.group(3) != '*' else 1, 'at')
+                ins.append((idx + len(m.group(2)), ' ' + text + ' '))
+                continue
             if m.group(3) == '*':
                 # EVERY occurrence (at least one): an obligation stated at each exit of a kind, so that an exit
                 # added later carries it too
@@ -616,12 +715,16 @@ def find_rule(name):
     return None
 
 
-def build_function(repo, d, unit, em, report, vac=False):
+def build_function(repo, d, unit, em, report, vac=False, stub_of=None):
     import rules as R
     fx = extract_fn(repo, d['file'], d['impl'], d['name'])
     body = strip_comments(fx['body'])
     rng = None
+    descents = []
     if d['range']:
+        for anchor in d['in']:
+            body, rec = descend_block(body, anchor, '%s::%s' % (d['file'], d['name']))
+            descents.append(rec)
         # /*@fnrange: the verified text is a contiguous range of the top-level statements of the real function,
         # wrapped in a free function with the signature given by `as:` and the tail expression given by `returns:`
         if not (d['from'] and d['to'] and d['as'] and d['returns']):
@@ -632,13 +735,18 @@ def build_function(repo, d, unit, em, report, vac=False):
         mname = re.match(r'fn\s+([A-Za-z0-9_]+)', head)
         if not mname:
             raise SystemExit('template error: @fnrange `as:` is not a fn signature: ' + d['as'])
+        for key, got in (('expect_before', nb), ('expect_after', na)):
+            if d[key] is not None and d[key] != got:
+                raise LostAnchor('fnrange %s of %s::%s: %d statements, %d expected (shape changed)' % (key, d['file'], d['name'], got, d[key]))
         rng = dict(name=mname.group(1), statements_before=nb, statements_in=ni, statements_after=na,
                    sha256=hashlib.sha256(cut.encode()).hexdigest())
         rng['from'], rng['to'] = d['from'], d['to']
+        if descents:
+            rng['descents'] = descents
     else:
         head, params, ret, where = split_sig(fx['sig'])
     fired = {}
-    ctx = dict(head=head, params=params, ret=ret, where=where)
+    ctx = dict(head=head, params=params, ret=ret, where=where, returns=(d['returns'] or '').strip() if d['range'] else None)
     # always-on drops
     body = R.drop_logging(body, fired)
     for r in d['rules']:
@@ -668,6 +776,22 @@ def build_function(repo, d, unit, em, report, vac=False):
         head = re.sub(r'fn\s+' + re.escape(d['name']) + r'\b', 'fn ' + d['rename'], head, count=1)
     name = rng['name'] if rng else (d['rename'] or d['name'])
     oblig = '%s.%s' % (unit, name)
+    if stub_of:
+        # /*@stub: the contract of unit `stub_of`, callee side.  The body is not emitted (it is that unit's business).
+        em.emit('// PROVED-IN: %s.%s' % (stub_of, name))
+        em.emit('#[verifier::external_body]')
+        em.emit(d['sig'] if d['sig'] else build_sig(head, params, ret, where, d['ret']))
+        for kind in ('requires', 'ensures'):
+            if d[kind]:
+                em.emit('    ' + kind)
+                for lab, e in d[kind]:
+                    em.emit('        %s,' % e)
+        em.emit('{ unimplemented!() }')
+        text = '\n'.join('%s [%s] %s' % (kind, lab, e) for kind in ('requires', 'ensures') for lab, e in d[kind])
+        report.setdefault('stubs', []).append(dict(proved_in='%s.%s' % (stub_of, name), file=d['file'], name=d['name'],
+                                                   contract_sha256=hashlib.sha256(text.encode()).hexdigest(),
+                                                   clauses=['%s.%s.ensures.%s' % (stub_of, name, lab) for lab, _ in d['ensures']]))
+        return []
     heads = loop_heads(body)
     if d['nloops'] is not None and len(heads) != d['nloops']:
         raise LostAnchor('%s: expected %d loops, found %d (shape changed)' % (oblig, d['nloops'], len(heads)))
@@ -724,7 +848,7 @@ def build_function(repo, d, unit, em, report, vac=False):
                 if lp['decreases']:
                     em.emit('        decreases %s,' % lp['decreases'])
             else:
-                em.emit(text)
+                em.emit(text, check_prefix=oblig)
         em.emit('}')
         return start_line, sig
 
@@ -735,6 +859,7 @@ def build_function(repo, d, unit, em, report, vac=False):
         vstart, _ = emit_fn(True)
         em.fnranges.append((vstart, em.lineno(), oblig + '.__vac'))
     obls = [oblig + '.body']
+    obls += ['%s.check.%s' % (oblig, lab) for lab in d['checks']]
     obls += ['%s.ensures.%s' % (oblig, lab) for lab, _ in d['ensures']]
     for k, lp in sorted(d['loops'].items()):
         for kind in ('invariant_except_break', 'invariant', 'ensures'):
@@ -842,6 +967,26 @@ def use_lemma(path, names):
     return '\n'.join(found[n] for n in names)
 
 
+def build_stub(repo, text, vxdir, unit, em, report):
+    """`/*@stub ../units/U.vrs :: name @*/`: find the `/*@fn FILE :: IMPL :: name` directive of template U and emit its
+    contract as an external_body stub (see build_function, stub_of)."""
+    parts = [p.strip() for p in text.strip().split('\n')[0].split(' :: ')]
+    if len(parts) != 2:
+        raise SystemExit('template error: bad @stub header: ' + text.strip())
+    other = open(os.path.join(vxdir, parts[0])).read()
+    mu = re.search(r'(?m)^//@unit\s+(\S+)', other)
+    hits = []
+    for dm in re.finditer(r'/\*@fn\s+(.*?)@\*/', other, re.S):
+        d = parse_fn_directive(dm.group(1))
+        if (d['rename'] or d['name']) == parts[1]:
+            hits.append(d)
+    if not mu or len(hits) != 1:
+        raise SystemExit('template error: @stub %s: %d /*@fn directives named %s' % (parts[0], len(hits), parts[1]))
+    d = hits[0]
+    d['range'] = False
+    build_function(repo, d, unit, em, report, stub_of=mu.group(1))
+
+
 def build_unit(template_path, repo, vac=False):
     tpl = open(template_path).read()
     vxdir = os.path.dirname(os.path.abspath(__file__))
@@ -857,7 +1002,7 @@ def build_unit(template_path, repo, vac=False):
     report['unit'] = unit
     report['props'] = m.group(2).split()
     pos = 0
-    rx = re.compile(r'/\*@(fnrange|fn|item)\s+(.*?)@\*/', re.S)
+    rx = re.compile(r'/\*@(fnrange|fn|item|stub)\s+(.*?)@\*/', re.S)
     pending_props = None
     for dm in rx.finditer(tpl):
         _emit_template_text(tpl[pos:dm.start()], em, report, unit)
@@ -867,6 +1012,8 @@ def build_unit(template_path, repo, vac=False):
             if d['props'] is None:
                 d['props'] = report['props']
             build_function(repo, d, unit, em, report, vac)
+        elif dm.group(1) == 'stub':
+            build_stub(repo, dm.group(2), vxdir, unit, em, report)
         else:
             build_item(repo, dm.group(2), em, report)
         pos = dm.end()
